@@ -41,7 +41,12 @@ def dotenv : Handler := fun args =>
   let lookup := envOfList (getStrMap args "lookup")
   outJson (CV.Dotenv.parse src lookup)
 
-def handlers1 : List (String × Handler) := [("dotenv", dotenv)]
+def envFiles : Handler := fun args =>
+  let files := (getStrList args "files").map String.toList
+  let lookup := envOfList (getStrMap args "lookup")
+  outJson (CV.Dotenv.fromFiles lookup files [])
+
+def handlers1 : List (String × Handler) := [("dotenv", dotenv), ("envFiles", envFiles)]
 
 end CV.Ops.C18
 
